@@ -94,6 +94,8 @@ func tyByName(s string) reflect.Type {
 // injCase: registrations over nested scopes and one invocation (C04, part A).
 type injCase struct {
 	Scopes   int      `json:"scopes"`                            // 1..3, scope 0 outermost, the last one is the nearest
+	Link     string   `json:"scopes_linked,omitempty"`            // "" = every scope is given its parent as it is created, outermost first, before anything is registered | inside-out (the innermost link is made first, the outermost last) | after-registrations | relinked (every scope first gets a decoy parent that holds a value for every type and is then given its real parent). A scope resolves through the parents it has when it is asked
+	Crowd    int      `json:"crowded_scope,omitempty"`            // >0: one scope (index Crowd-1) is filled up to 9-14 distinct types before the later re-registrations (which then re-register what the parameters ask for in that scope)
 	Pad      int      `json:"empty_scopes_in_between,omitempty"` // this many empty injectors stand between each scope and its parent, and between the invoking injector and the nearest scope: an empty scope changes nothing, however many there are
 	Regs     []injReg `json:"registrations"`
 	Later    []injReg `json:"later_registrations,omitempty"`         // applied after the first invocation; then the handler is invoked again
@@ -323,6 +325,64 @@ func genInjCase(rng *rand.Rand) *injCase {
 				via = "Map"
 			}
 			c.Later = append(c.Later, injReg{Scope: scope, Key: tyName(key), Impl: tyName(impls[rng.Intn(len(impls))]), Via: via, Tag: fmt.Sprintf("v%d", n)})
+		}
+	}
+	if c.Scopes > 1 && rng.Intn(4) == 0 {
+		c.Link = []string{"inside-out", "after-registrations", "relinked"}[rng.Intn(3)]
+	}
+	if rng.Intn(12) == 0 {
+		// a crowded scope: 9-14 distinct types in one scope, then what the parameters ask for is registered there again
+		sc := rng.Intn(c.Scopes)
+		c.Crowd = sc + 1
+		have := map[string]bool{}
+		for _, rg := range c.Regs {
+			if rg.Scope == sc {
+				have[rg.Key] = true
+			}
+		}
+		want := 9 + rng.Intn(6)
+		for _, k := range rng.Perm(len(c04Tys)) {
+			key := c04Tys[k]
+			if len(have) >= want {
+				break
+			}
+			if have[tyName(key)] || key == tyRCh {
+				continue
+			}
+			impls := implsFor(key)
+			if len(impls) == 0 {
+				continue
+			}
+			n++
+			via := "Set"
+			if key.Kind() == reflect.Interface && rng.Intn(2) == 0 {
+				via = "MapTo"
+			} else if key.Kind() != reflect.Interface && rng.Intn(2) == 0 {
+				via = "Map"
+			}
+			c.Regs = append(c.Regs, injReg{Scope: sc, Key: tyName(key), Impl: tyName(impls[rng.Intn(len(impls))]), Via: via, Tag: fmt.Sprintf("v%d", n)})
+			have[tyName(key)] = true
+		}
+		for _, pn := range c.Params {
+			if !have[pn] {
+				continue
+			}
+			key := tyByName(pn)
+			if key == tyRCh {
+				continue
+			}
+			impls := implsFor(key)
+			if len(impls) == 0 {
+				continue
+			}
+			n++
+			via := "Set"
+			if key.Kind() == reflect.Interface && rng.Intn(2) == 0 {
+				via = "MapTo"
+			} else if key.Kind() != reflect.Interface && rng.Intn(2) == 0 {
+				via = "Map"
+			}
+			c.Later = append(c.Later, injReg{Scope: sc, Key: tyName(key), Impl: tyName(impls[rng.Intn(len(impls))]), Via: via, Tag: fmt.Sprintf("v%d", n)})
 		}
 	}
 	if c.Apply {
@@ -624,13 +684,58 @@ func padScopes(parent inject.Injector, n int) inject.Injector {
 func buildScopes(c *injCase, chans map[string]string) ([]inject.Injector, scopeTable) {
 	scopes := make([]inject.Injector, c.Scopes)
 	tbl := make(scopeTable, c.Scopes)
+	type linkStep struct{ child, parent inject.Injector }
+	var links []linkStep
 	for i := range scopes {
 		scopes[i] = inject.New()
 		tbl[i] = map[reflect.Type]string{}
 		if i > 0 {
-			scopes[i].SetParent(padScopes(scopes[i-1], c.Pad))
+			if c.Link == "" {
+				scopes[i].SetParent(padScopes(scopes[i-1], c.Pad))
+				continue
+			}
+			parent := scopes[i-1]
+			for n := c.Pad; n > 0; n-- {
+				e := inject.New()
+				links = append(links, linkStep{e, parent})
+				parent = e
+			}
+			links = append(links, linkStep{scopes[i], parent})
 		}
 	}
+	doLinks := func() {
+		switch c.Link {
+		case "inside-out":
+			for k := len(links) - 1; k >= 0; k-- {
+				links[k].child.SetParent(links[k].parent)
+			}
+		case "relinked":
+			decoy := inject.New()
+			for _, t := range c04Tys {
+				if impls := implsFor(t); len(impls) > 0 && t != tyRCh {
+					decoy.Set(t, mkValue(impls[0], "decoy-parent", chans))
+				}
+			}
+			for _, l := range links {
+				l.child.SetParent(decoy)
+			}
+			for _, l := range links {
+				l.child.SetParent(l.parent)
+			}
+		default:
+			for _, l := range links {
+				l.child.SetParent(l.parent)
+			}
+		}
+	}
+	if c.Link != "after-registrations" {
+		doLinks()
+	}
+	defer func() {
+		if c.Link == "after-registrations" {
+			doLinks()
+		}
+	}()
 	for _, rg := range c.Regs {
 		key, impl := tyByName(rg.Key), tyByName(rg.Impl)
 		v := mkValue(impl, rg.Tag, chans)
